@@ -719,7 +719,7 @@ func (r *Runner) cmd(ctx context.Context, cm syntax.Command) {
 				r.arithm(y.Init)
 			}
 			for y.Cond == nil || r.arithm(y.Cond) != 0 {
-				if !r.exit.ok() || r.loopStmtsBroken(ctx, cm.Do) {
+				if r.loopStmtsBroken(ctx, cm.Do) {
 					break
 				}
 				if r.stop(ctx) {
